@@ -72,7 +72,13 @@ static void hc_puthex(const void *p, size_t n)
 
 /* ---- splitmix64 */
 static uint64_t hc_rng_state;
-static void hc_seed(uint64_t seed) { hc_rng_state = seed * 0x9E3779B97F4A7C15ULL + 0x1234567ULL; }
+static void hc_seed(uint64_t seed)
+{
+	/* hash the seed: consecutive seeds must not give the same stream shifted by one */
+	uint64_t z = seed * 0xD6E8FEB86659FD93ULL + 0x1234567ULL;
+	z = (z ^ (z >> 32)) * 0xD6E8FEB86659FD93ULL;
+	hc_rng_state = z ^ (z >> 32);
+}
 static uint64_t hc_rand(void)
 {
 	uint64_t z = (hc_rng_state += 0x9E3779B97F4A7C15ULL);
